@@ -125,6 +125,29 @@ def declare(t, c, default):
     return T(default=default, **kw)
 
 
+def reconfigure(p, t, c):
+    """bring the attributes of an existing Parameter object to configuration c"""
+    p.allow_None = c["an"]
+    if t in ("Number", "Integer", "Date", "CalendarDate", "Range", "DateRange", "CalendarDateRange"):
+        lo, hi = bound(t, c["lo"]), bound(t, c["hi"])
+        p.bounds = None if lo is None and hi is None else (lo, hi)
+        p.inclusive_bounds = (c["il"], c["ih"])
+    if t in ("String", "Bytes"):
+        p.regex = (r"^a\d$" if t == "String" else rb"^a\d$") if c["rx"] else None
+    if t in ("Tuple", "NumericTuple"):
+        p.length = c["len"]
+    if t in ("List", "HookList"):
+        p.bounds = (None if c["lo"] == NOB else c["lo"], None if c["hi"] == NOB else c["hi"])
+        if t == "List":
+            p.item_type = {"int": int, "str": str, "none": None}[c["it"]]
+    if t in ("Selector", "ListSelector"):
+        p.objects = {"l" + o: o for o in sorted(c["objs"])} if c.get("dd") else sorted(c["objs"])
+    if t == "ClassSelector":
+        p.class_ = (A, Other) if c["cls"] == "AorOther" else CLASSES[c["cls"]]
+    if t == "Color":
+        p.allow_named = c["named"]
+
+
 def json_form(t, v):
     """Independent JSON rendering of a candidate for the deserialization route, or None if
     the candidate cannot be told apart in JSON for this parameter type."""
@@ -253,5 +276,44 @@ def replay(tab, opts):
                 if not same(now, stored):
                     return fail("rejected_but_changed", "%s route: rejected %r yet the value changed from %r to %r"
                                 % (route, v, stored, now), repr(stored), repr(now))
+    # ---- the constraints are changed in place on the declared Parameter; the verdicts follow
+    alt = tab.get("alt")
+    if alt and not (t in ("Selector", "ListSelector") and not (c["cos"] and alt["c"]["cos"])) and t not in ("Magnitude", "Event"):
+        c2 = alt["c"]
+        cases2 = order(alt["cases"])
+        ok2 = [cs for cs in cases2 if cs["acc"] and cs["v"]["k"] != "none"] or [cs for cs in cases2 if cs["acc"]]
+        if ok2:
+            P = type("P", (param.Parameterized,), {"x": declare(t, c, default)})
+            old_inst = P()
+            old_inst.param.x            # an instance whose own Parameter copy predates the change keeps the old constraints
+            try:
+                reconfigure(P.param.x, t, c2)
+                P.param.x.default = mk(ok2[0]["v"])      # a default that fits the new constraints
+            except Exception as e:  # noqa
+                return fail("reconfigure", "changing the Parameter's attributes to %s raised %s: %s" % (c2, type(e).__name__, e))
+            for route in ("constructor", "instance", "class", "update"):
+                inst = P()
+                for cs in cases2:
+                    v = mk(cs["v"])
+                    try:
+                        if route == "constructor":
+                            P(x=v)
+                        elif route == "instance":
+                            inst.x = v
+                        elif route == "class":
+                            P.x = v
+                        else:
+                            inst.param.update(x=v)
+                        ok = True
+                    except (ValueError, TypeError):
+                        ok = False
+                    except Exception as e:  # noqa
+                        return fail("exception_class", "%s route after the constraints changed: assigning %r raised %s" % (route, v, type(e).__name__))
+                    if ok != cs["acc"]:
+                        return fail("verdict_after_change", "after the Parameter's constraints were changed in place to %s, %s route: %r was %s, spec says %s"
+                                    % ({k: x for k, x in c2.items() if x not in (NOB,)}, route, v, "accepted" if ok else "rejected", "accepted" if cs["acc"] else "rejected"),
+                                    cs["acc"], ok)
+                    if route == "class" and ok:
+                        P.param.x.default = mk(ok2[0]["v"])
     res["sample"] = {"t": t, "c": c, "cases": cases[:6]}
     return res
